@@ -39,7 +39,8 @@ def top_op(with_past=True):
                        st.tuples(st.just('c'), asset)).map(list)
     step = st.just(['step'])
     run = st.tuples(st.just('run'), st.sampled_from([0, 0.25, 0.5, 1, 1, 1.5, 2, 3.25])).map(list)
-    alts = [sched, sched, sched, simple, simple, step, run]
+    alts = [sched, sched, sched, sched, simple, simple, simple, step, step, run, run,
+            st.tuples(st.just('env2'), sched_asset).map(list)]
     if with_past:
         alts.append(st.tuples(st.just('past'), st.sampled_from([0.125, 1, 7, 'ulp', 1e-12, 2.0 ** -20])).map(list))
         alts.append(st.tuples(st.just('again'), st.integers(0, 5)).map(list))
